@@ -17,7 +17,22 @@ func rfc3339(t int) string { return time.Unix(int64(concr.BaseTime+t), 0).UTC().
 // one); errors exactly where the truncated history has no result; both sides are real runs and the truncated store's
 // specification result (itself an enumerated state) is compared as well.
 func C06(c *ev.Ctx) {
-	run := runResolutionTLC(c, "MC_C06", tierCfg(c, "MC_C06"), 40*time.Minute)
+	var cuts, nt, stores int64
+	for _, cfg := range []string{tierCfg(c, "MC_C06"), tierCfg(c, "MC_C06_unpub")} {
+		a, b, n := c06Config(c, cfg)
+		cuts, nt, stores = cuts+a, nt+b, stores+n
+	}
+	c.Cov.TracesValidatedAgainstImpl = cuts
+	c.Cov.Evaluations = cuts
+	c.Cov.DistinctNontrivial = nt
+	c.Cov.Exhaustive = true
+	c.Cov.Extra["stores"] = stores
+	c.Cov.Rule = "every store of <= MaxOps operations (configuration 1: published only, full alphabet; configuration 2: published and unpublished, 6-shape alphabet) x every version time 0..max+1 x every version id of a stored operation + an unknown id; TLC checks HistoricalIsTruncation (implementation-shaped cut of the sorted list vs truncation of the set) and PastIsImmutable on the specification; the harness compares real(store, cut) with real(truncated store) and with the specification's result of the truncated store. Non-trivial: the cut removes >= 1 and keeps >= 1 operation."
+	c.Finish("model_checking")
+}
+
+func c06Config(c *ev.Ctx, cfg string) (int64, int64, int64) {
+	run := runResolutionTLC(c, "MC_C06", cfg, 40*time.Minute)
 	e := mustEngine(run.Alpha, KeyTypeForSeed(c.Seed), concr.SHA256)
 	cases := run.Cases
 	index := make(map[string]int, len(cases))
@@ -89,11 +104,5 @@ func C06(c *ev.Ctx) {
 			c.AddSample(map[string]interface{}{"ops": cs.Ops, "cuts_checked": localCuts})
 		}
 	}, hangReporter(c, func(i int) interface{} { return e.Describe(cases[i].Ops) }))
-	c.Cov.TracesValidatedAgainstImpl = cuts
-	c.Cov.Evaluations = cuts
-	c.Cov.DistinctNontrivial = nt
-	c.Cov.Exhaustive = true
-	c.Cov.Extra["stores"] = len(cases)
-	c.Cov.Rule = "every store of <= MaxOps operations x every version time 0..max+1 x every version id of a stored operation + an unknown id; TLC checks HistoricalIsTruncation (implementation-shaped cut of the sorted list vs truncation of the set) and PastIsImmutable on the specification; the harness compares real(store, cut) with real(truncated store) and with the specification's result of the truncated store. Non-trivial: the cut removes >= 1 and keeps >= 1 operation."
-	c.Finish("model_checking")
+	return cuts, nt, int64(len(cases))
 }
